@@ -22,6 +22,7 @@ FULL-STRENGTH STATEMENTS (hold iff `codeCfg.recheck = true`, see `code_safe`):
 -/
 import LinVerif.Lemmas.C02Read
 import LinVerif.Lemmas.C02TokStep
+import LinVerif.Lemmas.C02Lru
 import LinVerif.Lemmas.C02Cur
 import LinVerif.Generated.C02
 
@@ -35,7 +36,8 @@ def codeCfg (threshold : Nat) (rollupOn : Bool) : Cfg :=
   { recheck := Generated.C02.removeVersionRechecksRef, cloneLocked := Generated.C02.commitCloneUnderLock,
     allocLocked := Generated.C02.allocUnderCommitLock, findErrReleases := Generated.C02.findErrReleases,
     pendFirst := Generated.C02.pendBeforeCreate, closeCAS := Generated.C02.closeIsCAS,
-    getReaderAtomic := Generated.C02.getReaderOneSection, threshold := threshold, rollupOn := rollupOn }
+    getReaderAtomic := Generated.C02.getReaderOneSection, listFirst := Generated.C02.listBeforeLive,
+    threshold := threshold, rollupOn := rollupOn }
 
 /-- the current source re-checks the refcount in `removeVersion` (fix b108b0f) -/
 theorem source_rechecks : Generated.C02.removeVersionRechecksRef = true := rfl
@@ -51,6 +53,13 @@ GetReader one critical section -/
 theorem source_pend_first : Generated.C02.pendBeforeCreate = true := rfl
 theorem source_close_cas : Generated.C02.closeIsCAS = true := rfl
 theorem source_getReader_atomic : Generated.C02.getReaderOneSection = true := rfl
+/-- the current source lists the family directory before it collects the live set -/
+theorem source_list_first : Generated.C02.listBeforeLive = true := rfl
+/-- what the families of one store share: both counters are fields of `storeVersionSet`; version ids
+come from `versionID.Add`; every reader-cache access is keyed by the table's file name alone -/
+theorem tie_sharedCounters : Generated.C02.sharedCounters = Code.sharedCounters := rfl
+theorem tie_newVersionID : Generated.C02.newVersionIDCalls = Code.newVersionID := rfl
+theorem tie_cacheKeys : Generated.C02.cacheKeys = Code.cacheKeys := rfl
 theorem tie_snapshotCloseShape : Generated.C02.snapshotCloseSteps = Code.snapshotCloseShape := rfl
 theorem tie_findFiles : Generated.C02.findFilesShape = Code.findFilesShape := rfl
 /-- the model's `findFiles` tests every table of the version (all levels) -/
@@ -102,39 +111,39 @@ theorem reachable_run {cfg : Cfg} {v0 f0 : Nat} {acts : List Act} {s s' : St}
 
 /-- `Safe` holds in every state of every schedule (variant with the re-check). -/
 theorem safe_invariant {cfg : Cfg} {v0 f0 : Nat} {s : St} (hr : cfg.recheck = true) (hcl : cfg.cloneLocked = true) (hal : cfg.allocLocked = true) (hfe : cfg.findErrReleases = false) (hpf : cfg.pendFirst = true)
-    (hcc : cfg.closeCAS = true) (hga : cfg.getReaderAtomic = true)
-    (h : Reachable cfg v0 f0 s) : Safe s := safe_reachable hr hcl hal hfe hpf hcc hga h
+    (hcc : cfg.closeCAS = true) (hga : cfg.getReaderAtomic = true) (hlf : cfg.listFirst = true)
+    (h : Reachable cfg v0 f0 s) : Safe s := safe_reachable hr hcl hal hfe hpf hcc hga hlf h
 
 /-- if the current source re-checks, every schedule of the code's own model variant is safe -/
 theorem code_safe {t : Nat} {ro : Bool} {v0 f0 : Nat} {s : St}
     (hfact : Generated.C02.removeVersionRechecksRef = true) (hfact2 : Generated.C02.commitCloneUnderLock = true)
     (hfact3 : Generated.C02.allocUnderCommitLock = true) (hfact4 : Generated.C02.findErrReleases = false)
     (hfact5 : Generated.C02.pendBeforeCreate = true) (hfact6 : Generated.C02.closeIsCAS = true)
-    (hfact7 : Generated.C02.getReaderOneSection = true)
+    (hfact7 : Generated.C02.getReaderOneSection = true) (hfact8 : Generated.C02.listBeforeLive = true)
     (h : Reachable (codeCfg t ro) v0 f0 s) : Safe s :=
-  safe_reachable (cfg := codeCfg t ro) hfact hfact2 hfact3 hfact4 hfact5 hfact6 hfact7 h
+  safe_reachable (cfg := codeCfg t ro) hfact hfact2 hfact3 hfact4 hfact5 hfact6 hfact7 hfact8 h
 
 /-- UNCONDITIONAL for the current source: every schedule of the model variant selected by the
 regenerated facts is safe (any compaction threshold, rollup on or off, any first ids). -/
 theorem safe_current_source {t : Nat} {ro : Bool} {v0 f0 : Nat} {s : St}
     (h : Reachable (codeCfg t ro) v0 f0 s) : Safe s :=
   code_safe source_rechecks source_clone_locked source_alloc_locked source_find_err_keeps source_pend_first
-    source_close_cas source_getReader_atomic h
+    source_close_cas source_getReader_atomic source_list_first h
 
 /-- `version.ref` = number of open snapshots on the version (the current one gets no extra count) -/
 theorem ref_counts_open_snapshots {cfg : Cfg} {v0 f0 : Nat} {s : St} (hr : cfg.recheck = true) (hcl : cfg.cloneLocked = true) (hal : cfg.allocLocked = true) (hfe : cfg.findErrReleases = false) (hpf : cfg.pendFirst = true)
-    (hcc : cfg.closeCAS = true) (hga : cfg.getReaderAtomic = true)
+    (hcc : cfg.closeCAS = true) (hga : cfg.getReaderAtomic = true) (hlf : cfg.listFirst = true)
     (h : Reachable cfg v0 f0 s) (v : Nat) : s.ref v = (cntOpen s.snap v s.nSnap : Int) :=
-  (safe_reachable hr hcl hal hfe hpf hcc hga h).ref_count v
+  (safe_reachable hr hcl hal hfe hpf hcc hga hlf h).ref_count v
 
 /-- every open snapshot: version registered, all its tables in the directory, retained readers mapped -/
 theorem open_snapshot_protected {cfg : Cfg} {v0 f0 : Nat} {s : St} (hr : cfg.recheck = true) (hcl : cfg.cloneLocked = true) (hal : cfg.allocLocked = true) (hfe : cfg.findErrReleases = false) (hpf : cfg.pendFirst = true)
-    (hcc : cfg.closeCAS = true) (hga : cfg.getReaderAtomic = true)
+    (hcc : cfg.closeCAS = true) (hga : cfg.getReaderAtomic = true) (hlf : cfg.listFirst = true)
     (h : Reachable cfg v0 f0 s) (i : Nat) (hi : i < s.nSnap) (ho : (s.snap i).st = .opened) :
     (s.snap i).ver ∈ s.active ∧
     (∀ f ∈ (s.ver (s.snap i).ver).nos, f ∈ s.disk) ∧
     (∀ f ∈ (s.snap i).held, (s.cref f).isSome = true) := by
-  have hs := safe_reachable hr hcl hal hfe hpf hcc hga h
+  have hs := safe_reachable hr hcl hal hfe hpf hcc hga hlf h
   have hact := hs.open_active i hi ho
   refine ⟨hact, hs.files_on_disk _ hact, ?_⟩
   intro f hf
@@ -146,13 +155,13 @@ unfinished writer (pending output already created), by a pending rollup — is i
 and every reader retained by an open snapshot is mapped. (A step that deleted or unmapped one
 would produce a reachable state violating this.) -/
 theorem no_needed_file_deleted {cfg : Cfg} {v0 f0 : Nat} {s : St} (hr : cfg.recheck = true) (hcl : cfg.cloneLocked = true) (hal : cfg.allocLocked = true) (hfe : cfg.findErrReleases = false) (hpf : cfg.pendFirst = true)
-    (hcc : cfg.closeCAS = true) (hga : cfg.getReaderAtomic = true)
+    (hcc : cfg.closeCAS = true) (hga : cfg.getReaderAtomic = true) (hlf : cfg.listFirst = true)
     (h : Reachable cfg v0 f0 s) :
     (∀ i, i < s.nSnap → (s.snap i).st = .opened → ∀ f ∈ (s.ver (s.snap i).ver).nos, f ∈ s.disk) ∧
     (∀ j, j < s.nJob → outOnDisk (s.job j).pc = true → ∀ f ∈ outNo (s.job j), f ∈ s.disk ∧ f ∈ s.pending) ∧
     (∀ f ∈ (s.ver s.cur).rollup, f ∈ s.disk) ∧
     (∀ i, i < s.nSnap → (s.snap i).st = .opened → ∀ f ∈ (s.snap i).held, s.cref f ≠ none) := by
-  have hs := safe_reachable hr hcl hal hfe hpf hcc hga h
+  have hs := safe_reachable hr hcl hal hfe hpf hcc hga hlf h
   refine ⟨fun i hi ho => hs.files_on_disk _ (hs.open_active i hi ho), ?_, hs.rollup_on_disk, hs.held_mapped⟩
   intro j hj hp f hf
   have hb := hs.jobs j hj
@@ -163,13 +172,13 @@ theorem no_needed_file_deleted {cfg : Cfg} {v0 f0 : Nat} {s : St} (hr : cfg.rech
 /-- The only step that removes a table from the directory (`deleteSST` of deleteObsoleteFiles)
 removes a table no open snapshot lists, that is no pending output and that no rollup needs. -/
 theorem delete_only_unneeded {cfg : Cfg} {v0 f0 : Nat} {s : St} (hr : cfg.recheck = true) (hcl : cfg.cloneLocked = true) (hal : cfg.allocLocked = true) (hfe : cfg.findErrReleases = false) (hpf : cfg.pendFirst = true)
-    (hcc : cfg.closeCAS = true) (hga : cfg.getReaderAtomic = true)
+    (hcc : cfg.closeCAS = true) (hga : cfg.getReaderAtomic = true) (hlf : cfg.listFirst = true)
     (h : Reachable cfg v0 f0 s) (j : Nat) (hj : j < s.nJob) (hpc : (s.job j).pc = .doEvicted)
     (f : Nat) (rest : List Nat) (htodo : (s.job j).todoDel = f :: rest) :
     jstep cfg s j = some (doRemove s j f rest) ∧
     (∀ i, i < s.nSnap → (s.snap i).st = .opened → f ∉ (s.ver (s.snap i).ver).nos) ∧
     f ∉ s.pending ∧ f ∉ (s.ver s.cur).rollup := by
-  have hs := safe_reachable hr hcl hal hfe hpf hcc hga h
+  have hs := safe_reachable hr hcl hal hfe hpf hcc hga hlf h
   have hd := (hs.jobs j hj).deleting (by rw [hpc]; rfl) f (by simp [htodo])
   refine ⟨by simp [jstep, hj, hpc, htodo], ?_, hd.1.2.1, hd.2⟩
   intro i hi ho
@@ -177,13 +186,13 @@ theorem delete_only_unneeded {cfg : Cfg} {v0 f0 : Nat} {s : St} (hr : cfg.rechec
 
 /-- `cache.Evict` in deleteObsoleteFiles closes only readers no open snapshot retains. -/
 theorem evict_only_unneeded {cfg : Cfg} {v0 f0 : Nat} {s : St} (hr : cfg.recheck = true) (hcl : cfg.cloneLocked = true) (hal : cfg.allocLocked = true) (hfe : cfg.findErrReleases = false) (hpf : cfg.pendFirst = true)
-    (hcc : cfg.closeCAS = true) (hga : cfg.getReaderAtomic = true)
+    (hcc : cfg.closeCAS = true) (hga : cfg.getReaderAtomic = true) (hlf : cfg.listFirst = true)
     (h : Reachable cfg v0 f0 s) (j : Nat) (hj : j < s.nJob)
     (hpc : (s.job j).pc = .doRolled ∨ (s.job j).pc = .doRemoved)
     (f : Nat) (rest : List Nat) (htodo : (s.job j).todoDel = f :: rest) :
     jstep cfg s j = some (doEvict s j f) ∧
     (∀ i, i < s.nSnap → (s.snap i).st = .opened → f ∉ (s.snap i).held) := by
-  have hs := safe_reachable hr hcl hal hfe hpf hcc hga h
+  have hs := safe_reachable hr hcl hal hfe hpf hcc hga hlf h
   have hd := (hs.jobs j hj).deleting (by rcases hpc with hpc | hpc <;> rw [hpc] <;> rfl) f (by simp [htodo])
   refine ⟨by rcases hpc with hpc | hpc <;> simp [jstep, hj, hpc, htodo], ?_⟩
   intro i hi ho hmem
@@ -191,10 +200,10 @@ theorem evict_only_unneeded {cfg : Cfg} {v0 f0 : Nat} {s : St} (hr : cfg.recheck
 
 /-- `storeCache.Cleanup` closes only readers nobody retains. -/
 theorem cleanup_only_unreferenced {cfg : Cfg} {v0 f0 : Nat} {s s' : St} (hr : cfg.recheck = true) (hcl : cfg.cloneLocked = true) (hal : cfg.allocLocked = true) (hfe : cfg.findErrReleases = false) (hpf : cfg.pendFirst = true)
-    (hcc : cfg.closeCAS = true) (hga : cfg.getReaderAtomic = true)
+    (hcc : cfg.closeCAS = true) (hga : cfg.getReaderAtomic = true) (hlf : cfg.listFirst = true)
     (h : Reachable cfg v0 f0 s) (fs : List Nat) (hst : step cfg s (.cleanup fs) = some s') :
     ∀ f ∈ fs, ∀ i, i < s.nSnap → f ∉ (s.snap i).held := by
-  have hs := safe_reachable hr hcl hal hfe hpf hcc hga h
+  have hs := safe_reachable hr hcl hal hfe hpf hcc hga hlf h
   intro f hf i hi hmem
   simp only [step] at hst
   split at hst
@@ -212,14 +221,14 @@ content its version had when the snapshot was taken (= at any earlier state `s` 
 already open), whatever flushes, compactions, rollup commits, file deletions and cache cleanups
 ran in between. -/
 theorem snapshot_stable {cfg : Cfg} {v0 f0 : Nat} {s s' : St} {acts : List Act} (hr : cfg.recheck = true) (hcl : cfg.cloneLocked = true) (hal : cfg.allocLocked = true) (hfe : cfg.findErrReleases = false) (hpf : cfg.pendFirst = true)
-    (hcc : cfg.closeCAS = true) (hga : cfg.getReaderAtomic = true)
+    (hcc : cfg.closeCAS = true) (hga : cfg.getReaderAtomic = true) (hlf : cfg.listFirst = true)
     (h : Reachable cfg v0 f0 s) (hrun : run cfg s acts = some s')
     (i : Nat) (hi : i < s.nSnap) (ho' : (s'.snap i).st = .opened) (k : Nat) :
     readKey s' i k = readKey s i k ∧
     readKey s i k = some (contentOf (s.ver (s.snap i).ver) s.content k) := by
-  have hs := safe_reachable hr hcl hal hfe hpf hcc hga h
-  have hs' := safe_reachable hr hcl hal hfe hpf hcc hga (reachable_run h hrun)
-  have hf := frame_run hr hcl hal hfe hpf hcc hga (safe_reachable hr hcl hal hfe hpf hcc hga h) hrun
+  have hs := safe_reachable hr hcl hal hfe hpf hcc hga hlf h
+  have hs' := safe_reachable hr hcl hal hfe hpf hcc hga hlf (reachable_run h hrun)
+  have hf := frame_run hr hcl hal hfe hpf hcc hga hlf (safe_reachable hr hcl hal hfe hpf hcc hga hlf h) hrun
   have ho := (hf.snap_open i hi ho').1
   have hi' : i < s'.nSnap := Nat.lt_of_lt_of_le hi hf.nSnap_le
   rw [readKey_safe hs hi ho k, readKey_safe hs' hi' ho' k, contentOf_frame hs hf hi k]
@@ -227,24 +236,24 @@ theorem snapshot_stable {cfg : Cfg} {v0 f0 : Nat} {s s' : St} {acts : List Act} 
 
 /-- a reader retained at `s` by a snapshot that is still open at `s'` is still mapped at `s'` -/
 theorem held_readers_stay_mapped {cfg : Cfg} {v0 f0 : Nat} {s s' : St} {acts : List Act} (hr : cfg.recheck = true) (hcl : cfg.cloneLocked = true) (hal : cfg.allocLocked = true) (hfe : cfg.findErrReleases = false) (hpf : cfg.pendFirst = true)
-    (hcc : cfg.closeCAS = true) (hga : cfg.getReaderAtomic = true)
+    (hcc : cfg.closeCAS = true) (hga : cfg.getReaderAtomic = true) (hlf : cfg.listFirst = true)
     (h : Reachable cfg v0 f0 s) (hrun : run cfg s acts = some s')
     (i : Nat) (hi : i < s.nSnap) (ho' : (s'.snap i).st = .opened) :
     ∀ f ∈ (s.snap i).held, s'.cref f ≠ none := by
-  have hs' := safe_reachable hr hcl hal hfe hpf hcc hga (reachable_run h hrun)
-  have hf := frame_run hr hcl hal hfe hpf hcc hga (safe_reachable hr hcl hal hfe hpf hcc hga h) hrun
+  have hs' := safe_reachable hr hcl hal hfe hpf hcc hga hlf (reachable_run h hrun)
+  have hf := frame_run hr hcl hal hfe hpf hcc hga hlf (safe_reachable hr hcl hal hfe hpf hcc hga hlf h) hrun
   intro f hmem
   exact hs'.held_mapped i (Nat.lt_of_lt_of_le hi hf.nSnap_le) ho' f ((hf.snap_open i hi ho').2 f hmem)
 
 /-- the tables of an open snapshot's version stay in the directory for as long as it is open -/
 theorem snapshot_files_stay {cfg : Cfg} {v0 f0 : Nat} {s s' : St} {acts : List Act} (hr : cfg.recheck = true) (hcl : cfg.cloneLocked = true) (hal : cfg.allocLocked = true) (hfe : cfg.findErrReleases = false) (hpf : cfg.pendFirst = true)
-    (hcc : cfg.closeCAS = true) (hga : cfg.getReaderAtomic = true)
+    (hcc : cfg.closeCAS = true) (hga : cfg.getReaderAtomic = true) (hlf : cfg.listFirst = true)
     (h : Reachable cfg v0 f0 s) (hrun : run cfg s acts = some s')
     (i : Nat) (hi : i < s.nSnap) (ho' : (s'.snap i).st = .opened) :
     ∀ f ∈ (s.ver (s.snap i).ver).nos, f ∈ s'.disk := by
-  have hs := safe_reachable hr hcl hal hfe hpf hcc hga h
-  have hs' := safe_reachable hr hcl hal hfe hpf hcc hga (reachable_run h hrun)
-  have hf := frame_run hr hcl hal hfe hpf hcc hga (safe_reachable hr hcl hal hfe hpf hcc hga h) hrun
+  have hs := safe_reachable hr hcl hal hfe hpf hcc hga hlf h
+  have hs' := safe_reachable hr hcl hal hfe hpf hcc hga hlf (reachable_run h hrun)
+  have hf := frame_run hr hcl hal hfe hpf hcc hga hlf (safe_reachable hr hcl hal hfe hpf hcc hga hlf h) hrun
   have hi' : i < s'.nSnap := Nat.lt_of_lt_of_le hi hf.nSnap_le
   intro f hmem
   have := hs'.files_on_disk _ (hs'.open_active i hi' ho') f
@@ -255,9 +264,9 @@ theorem snapshot_files_stay {cfg : Cfg} {v0 f0 : Nat} {s s' : St} {acts : List A
 commits are never lost or re-ordered (they are serialised by the version-set mutex and each
 clones the version that is current at its swap). -/
 theorem current_is_replay {cfg : Cfg} {v0 f0 : Nat} {s : St} (hr : cfg.recheck = true) (hcl : cfg.cloneLocked = true) (hal : cfg.allocLocked = true) (hfe : cfg.findErrReleases = false) (hpf : cfg.pendFirst = true)
-    (hcc : cfg.closeCAS = true) (hga : cfg.getReaderAtomic = true)
+    (hcc : cfg.closeCAS = true) (hga : cfg.getReaderAtomic = true) (hlf : cfg.listFirst = true)
     (h : Reachable cfg v0 f0 s) : s.ver s.cur = s.hist.foldr (fun e v => applyEdit v e) {} :=
-  (safe_reachable hr hcl hal hfe hpf hcc hga h).history
+  (safe_reachable hr hcl hal hfe hpf hcc hga hlf h).history
 
 /-- the swap step of a commit records its edit log -/
 theorem swap_records_commit (s : St) (j : Nat) :
@@ -267,13 +276,13 @@ theorem swap_records_commit (s : St) (j : Nat) :
 reader takes its snapshot) gets a version that lists every table `e` added, unless a later
 installed edit log (a compaction that consumed it) deleted that table. -/
 theorem later_reader_sees_commit {cfg : Cfg} {v0 f0 : Nat} {s s' : St} (hr : cfg.recheck = true) (hcl : cfg.cloneLocked = true) (hal : cfg.allocLocked = true) (hfe : cfg.findErrReleases = false) (hpf : cfg.pendFirst = true)
-    (hcc : cfg.closeCAS = true) (hga : cfg.getReaderAtomic = true)
+    (hcc : cfg.closeCAS = true) (hga : cfg.getReaderAtomic = true) (hlf : cfg.listFirst = true)
     (h : Reachable cfg v0 f0 s) (hst : step cfg s .acquire = some s')
     (later earlier : List Edit) (e : Edit) (hh : s.hist = later ++ e :: earlier)
     (m : FileMeta) (hm : m ∈ e.adds) (hnd : ∀ e' ∈ later, (m.level, m.no) ∉ e'.dels) :
     (s'.snap s.nSnap).st = .opened ∧ (s'.snap s.nSnap).ver = s.cur ∧
     m ∈ (s'.ver (s'.snap s.nSnap).ver).files := by
-  have hs := safe_reachable hr hcl hal hfe hpf hcc hga h
+  have hs := safe_reachable hr hcl hal hfe hpf hcc hga hlf h
   simp only [step] at hst
   cases hst
   refine ⟨by simp [snapAcquire], by simp [snapAcquire], ?_⟩
@@ -284,17 +293,17 @@ theorem later_reader_sees_commit {cfg : Cfg} {v0 f0 : Nat} {s s' : St} (hr : cfg
 
 /-- once a commit's version swap is done its edit log is in the history … -/
 theorem commit_recorded {cfg : Cfg} {v0 f0 : Nat} {s : St} (hr : cfg.recheck = true) (hcl : cfg.cloneLocked = true) (hal : cfg.allocLocked = true) (hfe : cfg.findErrReleases = false) (hpf : cfg.pendFirst = true)
-    (hcc : cfg.closeCAS = true) (hga : cfg.getReaderAtomic = true)
+    (hcc : cfg.closeCAS = true) (hga : cfg.getReaderAtomic = true) (hlf : cfg.listFirst = true)
     (h : Reachable cfg v0 f0 s) (j : Nat) (hj : j < s.nJob) (hp : postSwap (s.job j).pc = true) :
     (s.job j).edit ∈ s.hist :=
-  ((safe_reachable hr hcl hal hfe hpf hcc hga h).jobs j hj).recorded hp
+  ((safe_reachable hr hcl hal hfe hpf hcc hga hlf h).jobs j hj).recorded hp
 
 /-- … and stays there along every schedule -/
 theorem installed_commit_stays {cfg : Cfg} {v0 f0 : Nat} {s s' : St} {acts : List Act} (hr : cfg.recheck = true)
     (hcl : cfg.cloneLocked = true) (hal : cfg.allocLocked = true) (hfe : cfg.findErrReleases = false) (hpf : cfg.pendFirst = true)
-    (hcc : cfg.closeCAS = true) (hga : cfg.getReaderAtomic = true) (h : Reachable cfg v0 f0 s)
+    (hcc : cfg.closeCAS = true) (hga : cfg.getReaderAtomic = true) (hlf : cfg.listFirst = true) (h : Reachable cfg v0 f0 s)
     (hrun : run cfg s acts = some s') (e : Edit) (he : e ∈ s.hist) : e ∈ s'.hist :=
-  (frame_run hr hcl hal hfe hpf hcc hga (safe_reachable hr hcl hal hfe hpf hcc hga h) hrun).hist_grows e he
+  (frame_run hr hcl hal hfe hpf hcc hga hlf (safe_reachable hr hcl hal hfe hpf hcc hga hlf h) hrun).hist_grows e he
 
 /-- ALL interleavings of any number of concurrent committers (in particular two overlapping
 flush / compaction / rollup commits on the family): every commit whose swap completed before a
@@ -302,18 +311,18 @@ reader starts — i.e. every `e` in the history — is visible to that reader: e
 listed by the reader's version unless an edit installed after `e` deleted it. -/
 theorem completed_commits_visible {cfg : Cfg} {v0 f0 : Nat} {s s' : St} (hr : cfg.recheck = true)
     (hcl : cfg.cloneLocked = true) (hal : cfg.allocLocked = true) (hfe : cfg.findErrReleases = false) (hpf : cfg.pendFirst = true)
-    (hcc : cfg.closeCAS = true) (hga : cfg.getReaderAtomic = true) (h : Reachable cfg v0 f0 s) (hst : step cfg s .acquire = some s')
+    (hcc : cfg.closeCAS = true) (hga : cfg.getReaderAtomic = true) (hlf : cfg.listFirst = true) (h : Reachable cfg v0 f0 s) (hst : step cfg s .acquire = some s')
     (e : Edit) (he : e ∈ s.hist) :
     ∃ later earlier, s.hist = later ++ e :: earlier ∧
       ∀ m ∈ e.adds, (∀ e' ∈ later, (m.level, m.no) ∉ e'.dels) → m ∈ (s'.ver (s'.snap s.nSnap).ver).files := by
   obtain ⟨later, earlier, hh⟩ := List.append_of_mem he
-  exact ⟨later, earlier, hh, fun m hm hnd => (later_reader_sees_commit hr hcl hal hfe hpf hcc hga h hst later earlier e hh m hm hnd).2.2⟩
+  exact ⟨later, earlier, hh, fun m hm hnd => (later_reader_sees_commit hr hcl hal hfe hpf hcc hga hlf h hst later earlier e hh m hm hnd).2.2⟩
 
 /-- two committers `j ≠ k` that both finished their swap: a reader starting now sees the tables
 of both (flushes add, never delete; nothing installed since deleted them) -/
 theorem two_committers_both_visible {cfg : Cfg} {v0 f0 : Nat} {s s' : St} (hr : cfg.recheck = true)
     (hcl : cfg.cloneLocked = true) (hal : cfg.allocLocked = true) (hfe : cfg.findErrReleases = false) (hpf : cfg.pendFirst = true)
-    (hcc : cfg.closeCAS = true) (hga : cfg.getReaderAtomic = true) (h : Reachable cfg v0 f0 s) (hst : step cfg s .acquire = some s')
+    (hcc : cfg.closeCAS = true) (hga : cfg.getReaderAtomic = true) (hlf : cfg.listFirst = true) (h : Reachable cfg v0 f0 s) (hst : step cfg s .acquire = some s')
     (j k : Nat) (hj : j < s.nJob) (hk : k < s.nJob)
     (hpj : postSwap (s.job j).pc = true) (hpk : postSwap (s.job k).pc = true)
     (hnodel : ∀ e' ∈ s.hist, e'.dels = []) :
@@ -321,12 +330,12 @@ theorem two_committers_both_visible {cfg : Cfg} {v0 f0 : Nat} {s s' : St} (hr : 
     (∀ m ∈ (s.job k).edit.adds, m ∈ (s'.ver (s'.snap s.nSnap).ver).files) := by
   have key : ∀ e ∈ s.hist, ∀ m ∈ e.adds, m ∈ (s'.ver (s'.snap s.nSnap).ver).files := by
     intro e he m hm
-    obtain ⟨later, earlier, hh, hv⟩ := completed_commits_visible hr hcl hal hfe hpf hcc hga h hst e he
+    obtain ⟨later, earlier, hh, hv⟩ := completed_commits_visible hr hcl hal hfe hpf hcc hga hlf h hst e he
     apply hv m hm
     intro e' he'
     have := hnodel e' (by rw [hh]; simp [he'])
     simp [this]
-  exact ⟨key _ (commit_recorded hr hcl hal hfe hpf hcc hga h j hj hpj), key _ (commit_recorded hr hcl hal hfe hpf hcc hga h k hk hpk)⟩
+  exact ⟨key _ (commit_recorded hr hcl hal hfe hpf hcc hga hlf h j hj hpj), key _ (commit_recorded hr hcl hal hfe hpf hcc hga hlf h k hk hpk)⟩
 
 /-! ### content level across compactions — for ANY merger satisfying the contract `MergerOk`
 
@@ -340,9 +349,9 @@ tokens of the flush commits whose version swap is done (`s.flushed`), however ma
 (merge or trivial move), rollup commits and overlapping committers ran. -/
 theorem current_shows_flushed_tokens {cfg : Cfg} {v0 f0 : Nat} {s : St} (hm : MergerOk cfg.merge)
     (hr : cfg.recheck = true) (hcl : cfg.cloneLocked = true) (hal : cfg.allocLocked = true) (hfe : cfg.findErrReleases = false) (hpf : cfg.pendFirst = true)
-    (hcc : cfg.closeCAS = true) (hga : cfg.getReaderAtomic = true) (h : Reachable cfg v0 f0 s) (k : Nat) :
+    (hcc : cfg.closeCAS = true) (hga : cfg.getReaderAtomic = true) (hlf : cfg.listFirst = true) (h : Reachable cfg v0 f0 s) (k : Nat) :
     (vTokens (s.ver s.cur).files s.content k).Perm (s.flushed.flatMap (fun f => tokensAt (s.content f) k)) :=
-  (tok_reachable hm hr hcl hal hfe hpf hcc hga h).tokens k
+  (tok_reachable hm hr hcl hal hfe hpf hcc hga hlf h).tokens k
 
 /-- a flush commit's swap records its table as flushed -/
 theorem swap_records_flush (s : St) (j : Nat) (hk : (s.job j).kind = .flush) :
@@ -353,7 +362,7 @@ theorem swap_records_flush (s : St) (j : Nat) (hk : (s.job j).kind = .flush) :
 completed (swapped) before it started — compactions in between notwithstanding. -/
 theorem later_reader_sees_tokens {cfg : Cfg} {v0 f0 : Nat} {s s' : St} (hm : MergerOk cfg.merge)
     (hr : cfg.recheck = true) (hcl : cfg.cloneLocked = true) (hal : cfg.allocLocked = true) (hfe : cfg.findErrReleases = false) (hpf : cfg.pendFirst = true)
-    (hcc : cfg.closeCAS = true) (hga : cfg.getReaderAtomic = true) (h : Reachable cfg v0 f0 s)
+    (hcc : cfg.closeCAS = true) (hga : cfg.getReaderAtomic = true) (hlf : cfg.listFirst = true) (h : Reachable cfg v0 f0 s)
     (hst : step cfg s .acquire = some s') (k : Nat) :
     (vTokens (s'.ver (s'.snap s.nSnap).ver).files s'.content k).Perm
       (s.flushed.flatMap (fun f => tokensAt (s.content f) k)) := by
@@ -362,18 +371,18 @@ theorem later_reader_sees_tokens {cfg : Cfg} {v0 f0 : Nat} {s s' : St} (hm : Mer
   have : vTokens ((snapAcquire s none).ver ((snapAcquire s none).snap s.nSnap).ver).files (snapAcquire s none).content k =
       vTokens (s.ver s.cur).files s.content k := by simp [snapAcquire]
   rw [this]
-  exact current_shows_flushed_tokens hm hr hcl hal hfe hpf hcc hga h k
+  exact current_shows_flushed_tokens hm hr hcl hal hfe hpf hcc hga hlf h k
 
 /-- the version swap of a compaction (merge or trivial move) leaves every key's tokens unchanged -/
 theorem compaction_swap_keeps_tokens {cfg : Cfg} {v0 f0 : Nat} {s : St} (hm : MergerOk cfg.merge)
     (hr : cfg.recheck = true) (hcl : cfg.cloneLocked = true) (hal : cfg.allocLocked = true) (hfe : cfg.findErrReleases = false) (hpf : cfg.pendFirst = true)
-    (hcc : cfg.closeCAS = true) (hga : cfg.getReaderAtomic = true) (h : Reachable cfg v0 f0 s)
+    (hcc : cfg.closeCAS = true) (hga : cfg.getReaderAtomic = true) (hlf : cfg.listFirst = true) (h : Reachable cfg v0 f0 s)
     (j : Nat) (hj : j < s.nJob) (hpc : (s.job j).pc = .cSnapped) (hk : (s.job j).kind = .compact) (k : Nat) :
     (vTokens ((jSwap s j).ver (jSwap s j).cur).files (jSwap s j).content k).Perm
       (vTokens (s.ver s.cur).files s.content k) := by
   have hstep : step cfg s (.jstep j) = some (jSwap s j) := by simp [step, jstep, hj, hpc]
-  have h1 := current_shows_flushed_tokens hm hr hcl hal hfe hpf hcc hga (Reachable.step _ h hstep) k
-  have h2 := current_shows_flushed_tokens hm hr hcl hal hfe hpf hcc hga h k
+  have h1 := current_shows_flushed_tokens hm hr hcl hal hfe hpf hcc hga hlf (Reachable.step _ h hstep) k
+  have h2 := current_shows_flushed_tokens hm hr hcl hal hfe hpf hcc hga hlf h k
   have hfl : (jSwap s j).flushed = s.flushed := by simp [jSwap, noteFlush, hk, swapVersion, setPc, St.setJob]
   have hc : (jSwap s j).content = s.content := rfl
   rw [hfl, hc] at h1
@@ -391,7 +400,7 @@ theorem current_source_harness_tokens {t : Nat} {ro : Bool} {v0 f0 : Nat} {s : S
     (h : Reachable (codeCfg t ro) v0 f0 s) (k : Nat) :
     (vTokens (s.ver s.cur).files s.content k).Perm (s.flushed.flatMap (fun f => tokensAt (s.content f) k)) :=
   current_shows_flushed_tokens (cfg := codeCfg t ro) mergeContent_ok source_rechecks source_clone_locked
-    source_alloc_locked source_find_err_keeps source_pend_first source_close_cas source_getReader_atomic h k
+    source_alloc_locked source_find_err_keeps source_pend_first source_close_cas source_getReader_atomic source_list_first h k
 
 /-- the model variant of the current source with an arbitrary merger -/
 def codeCfgWith (merge : List Content → Content) (threshold : Nat) (rollupOn : Bool) : Cfg :=
@@ -403,14 +412,14 @@ theorem current_source_shows_flushed_tokens {merge : List Content → Content} (
     {t : Nat} {ro : Bool} {v0 f0 : Nat} {s : St} (h : Reachable (codeCfgWith merge t ro) v0 f0 s) (k : Nat) :
     (vTokens (s.ver s.cur).files s.content k).Perm (s.flushed.flatMap (fun f => tokensAt (s.content f) k)) :=
   current_shows_flushed_tokens (cfg := codeCfgWith merge t ro) hm source_rechecks source_clone_locked source_alloc_locked source_find_err_keeps
-    source_pend_first source_close_cas source_getReader_atomic h k
+    source_pend_first source_close_cas source_getReader_atomic source_list_first h k
 
 /-- the table numbers of a version are pairwise distinct; at most one compaction runs at a time -/
 theorem version_tables_distinct {cfg : Cfg} {v0 f0 : Nat} {s : St} (hm : MergerOk cfg.merge)
     (hr : cfg.recheck = true) (hcl : cfg.cloneLocked = true) (hal : cfg.allocLocked = true) (hfe : cfg.findErrReleases = false) (hpf : cfg.pendFirst = true)
-    (hcc : cfg.closeCAS = true) (hga : cfg.getReaderAtomic = true) (h : Reachable cfg v0 f0 s) (v : Nat) :
+    (hcc : cfg.closeCAS = true) (hga : cfg.getReaderAtomic = true) (hlf : cfg.listFirst = true) (h : Reachable cfg v0 f0 s) (v : Nat) :
     (s.ver v).nos.Nodup :=
-  (tok_reachable hm hr hcl hal hfe hpf hcc hga h).nodup v
+  (tok_reachable hm hr hcl hal hfe hpf hcc hga hlf h).nodup v
 
 /-! ### table numbers and rollup marks -/
 
@@ -418,18 +427,18 @@ theorem version_tables_distinct {cfg : Cfg} {v0 f0 : Nat} {s : St} (hm : MergerO
 different jobs are pairwise distinct — no two builders ever own one file. -/
 theorem allocated_numbers_distinct {cfg : Cfg} {v0 f0 : Nat} {s : St} (hr : cfg.recheck = true)
     (hcl : cfg.cloneLocked = true) (hal : cfg.allocLocked = true) (hfe : cfg.findErrReleases = false) (hpf : cfg.pendFirst = true)
-    (hcc : cfg.closeCAS = true) (hga : cfg.getReaderAtomic = true) (h : Reachable cfg v0 f0 s)
+    (hcc : cfg.closeCAS = true) (hga : cfg.getReaderAtomic = true) (hlf : cfg.listFirst = true) (h : Reachable cfg v0 f0 s)
     (j k : Nat) (hj : j < s.nJob) (hk : k < s.nJob) (hjk : j ≠ k) :
     ∀ f ∈ outNo (s.job j), f ∉ outNo (s.job k) :=
-  (safe_reachable hr hcl hal hfe hpf hcc hga h).outs_distinct j k hj hk hjk
+  (safe_reachable hr hcl hal hfe hpf hcc hga hlf h).outs_distinct j k hj hk hjk
 
 /-- … and an allocated number that is not installed yet is listed by no version -/
 theorem allocated_number_unlisted {cfg : Cfg} {v0 f0 : Nat} {s : St} (hm : MergerOk cfg.merge) (hr : cfg.recheck = true)
     (hcl : cfg.cloneLocked = true) (hal : cfg.allocLocked = true) (hfe : cfg.findErrReleases = false) (hpf : cfg.pendFirst = true)
-    (hcc : cfg.closeCAS = true) (hga : cfg.getReaderAtomic = true) (h : Reachable cfg v0 f0 s)
+    (hcc : cfg.closeCAS = true) (hga : cfg.getReaderAtomic = true) (hlf : cfg.listFirst = true) (h : Reachable cfg v0 f0 s)
     (j : Nat) (hj : j < s.nJob) (hp : outHidden (s.job j).pc = true) :
     ∀ f ∈ outNo (s.job j), ∀ v, f ∉ (s.ver v).nos :=
-  ((tok_reachable hm hr hcl hal hfe hpf hcc hga h).jobs j hj).hidden hp
+  ((tok_reachable hm hr hcl hal hfe hpf hcc hga hlf h).jobs j hj).hidden hp
 
 /-- A pending rollup mark (file `f` in the current version's rollup set — the record that a rollup
 of `f` is still to be done, and what keeps `f` alive once it is compacted away) survives every step
@@ -439,12 +448,12 @@ nothing: it is the model's `delObs` job) removes it. Together with `no_needed_fi
 (every marked file is in the directory) this is "a file a pending rollup still needs is never deleted". -/
 theorem rollup_mark_removed_only_by_rollup_done {cfg : Cfg} {v0 f0 : Nat} {s s' : St} {a : Act}
     (hr : cfg.recheck = true) (hcl : cfg.cloneLocked = true) (hal : cfg.allocLocked = true) (hfe : cfg.findErrReleases = false) (hpf : cfg.pendFirst = true)
-    (hcc : cfg.closeCAS = true) (hga : cfg.getReaderAtomic = true)
+    (hcc : cfg.closeCAS = true) (hga : cfg.getReaderAtomic = true) (hlf : cfg.listFirst = true)
     (h : Reachable cfg v0 f0 s) (hst : step cfg s a = some s') (f : Nat) (hf : f ∈ (s.ver s.cur).rollup) :
     f ∈ (s'.ver s'.cur).rollup ∨
     ∃ j, a = .jstep j ∧ j < s.nJob ∧ (s.job j).kind = .rollupDone ∧ (s.job j).pc = .cSnapped ∧
       f ∈ (s.job j).edit.rollDel := by
-  have hs := safe_reachable hr hcl hal hfe hpf hcc hga h
+  have hs := safe_reachable hr hcl hal hfe hpf hcc hga hlf h
   have hfr := frame_step hpf (fun k hk hp => (hs.jobs k hk).nfread hp) hst
   rcases cur_step hpf hst with hc | ⟨j, rfl, hj, hpc, rfl⟩
   · left; rw [hc, hfr.ver_eq _ hs.ver_bound.1]; exact hf
@@ -474,18 +483,18 @@ So every history with failing finds is a schedule of this model. -/
 equality unless `Snapshot.Load` leaked references (it retains without recording) -/
 theorem cache_ref_covers_holds {cfg : Cfg} {v0 f0 : Nat} {s : St} (hr : cfg.recheck = true)
     (hcl : cfg.cloneLocked = true) (hal : cfg.allocLocked = true) (hfe : cfg.findErrReleases = false) (hpf : cfg.pendFirst = true)
-    (hcc : cfg.closeCAS = true) (hga : cfg.getReaderAtomic = true)
+    (hcc : cfg.closeCAS = true) (hga : cfg.getReaderAtomic = true) (hlf : cfg.listFirst = true)
     (h : Reachable cfg v0 f0 s) (f : Nat) (r : Int) (hf : s.cref f = some r) :
     (holdSum s.snap f s.nSnap : Int) ≤ r :=
-  (safe_reachable hr hcl hal hfe hpf hcc hga h).hold_count f r hf
+  (safe_reachable hr hcl hal hfe hpf hcc hga hlf h).hold_count f r hf
 
 /-- hence an entry whose table some open snapshot retains is never eligible for `Cleanup` -/
 theorem held_entry_not_cleanable {cfg : Cfg} {v0 f0 : Nat} {s : St} (hr : cfg.recheck = true)
     (hcl : cfg.cloneLocked = true) (hal : cfg.allocLocked = true) (hfe : cfg.findErrReleases = false) (hpf : cfg.pendFirst = true)
-    (hcc : cfg.closeCAS = true) (hga : cfg.getReaderAtomic = true)
+    (hcc : cfg.closeCAS = true) (hga : cfg.getReaderAtomic = true) (hlf : cfg.listFirst = true)
     (h : Reachable cfg v0 f0 s) (i : Nat) (hi : i < s.nSnap) (f : Nat) (hf : f ∈ (s.snap i).held) :
     canClean s.cref f = false := by
-  have hs := safe_reachable hr hcl hal hfe hpf hcc hga h
+  have hs := safe_reachable hr hcl hal hfe hpf hcc hga hlf h
   cases hc : s.cref f with
   | none => simp [canClean, hc]
   | some r =>
@@ -495,6 +504,120 @@ theorem held_entry_not_cleanable {cfg : Cfg} {v0 f0 : Nat} {s : St} (hr : cfg.re
     have : r ≠ 0 := by omega
     simp [canClean, hc, this]
 
+/-! ### deleteObsoleteFiles racing with writers: the listing precedes the live set -/
+
+/-- Over all schedules (directory listed BEFORE the pending / active-version / rollup collections):
+whatever a deleteObsoleteFiles has decided to evict + unlink is, in EVERY later state until it is
+done with it, no output of a writer that has not finished (allocated, created, committing,
+committed-but-still-pending), no table of any registered version — in particular not the table of
+a flush / compaction / rollup commit that landed entirely inside the cleanup — and carries no
+rollup mark. A table that enters the directory after the listing is simply not in the listing. -/
+theorem cleanup_never_targets_concurrent_writer {cfg : Cfg} {v0 f0 : Nat} {s : St} (hr : cfg.recheck = true)
+    (hcl : cfg.cloneLocked = true) (hal : cfg.allocLocked = true) (hfe : cfg.findErrReleases = false)
+    (hpf : cfg.pendFirst = true) (hcc : cfg.closeCAS = true) (hga : cfg.getReaderAtomic = true) (hlf : cfg.listFirst = true)
+    (h : Reachable cfg v0 f0 s) (j : Nat) (hj : j < s.nJob) (hd : delRange (s.job j).pc = true)
+    (f : Nat) (hf : f ∈ (s.job j).todoDel) :
+    (∀ k, k < s.nJob → outPending (s.job k).pc = true → f ∉ outNo (s.job k)) ∧
+    (∀ v ∈ s.active, f ∉ (s.ver v).nos) ∧ f ∉ (s.ver s.cur).rollup ∧ f ∉ s.pending := by
+  have hs := safe_reachable hr hcl hal hfe hpf hcc hga hlf h
+  have hdd := (hs.jobs j hj).deleting hd f hf
+  refine ⟨?_, hdd.1.2.2, hdd.2, hdd.1.2.1⟩
+  intro k hk hp hmem
+  exact hdd.1.2.1 ((hs.jobs k hk).pend hp f hmem)
+
+/-- the variant step list the model runs for the current source IS list-first: the job step after
+`doStart` is the listing, the step after the active-version scan computes the delete list -/
+theorem list_first_steps (cfg : Cfg) (hlf : cfg.listFirst = true) (s : St) (j : Nat) (hj : j < s.nJob) :
+    ((s.job j).pc = .doStart → jstep cfg s j = some (doList s j)) ∧
+    ((s.job j).pc = .doActived → jstep cfg s j = some (doRollup s j)) := by
+  constructor <;> intro hpc <;> simp [jstep, hj, hpc, hlf]
+
+/-! ### several families in one store (shared version-set mutex, file-number and version-id counters, reader cache) -/
+
+/-- what another family can do to this family: nothing but move the two store-level counters on,
+and only while no commit of this family holds the version-set mutex -/
+theorem env_enabled_iff (cfg : Cfg) (s s' : St) (df dv : Nat) :
+    step cfg s (.env df dv) = some s' ↔ s.lock = none ∧ s' = envBump s df dv := by
+  simp only [step]
+  constructor
+  · intro h
+    split at h
+    next hl => cases h; exact ⟨hl, rfl⟩
+    next => cases h
+  · rintro ⟨hl, rfl⟩; simp [hl]
+
+/-- an `env` step leaves every per-family component alone -/
+theorem other_family_step_keeps_family_state (s : St) (df dv : Nat) :
+    let s' := envBump s df dv
+    s'.cur = s.cur ∧ s'.active = s.active ∧ s'.ver = s.ver ∧ s'.ref = s.ref ∧ s'.disk = s.disk ∧
+    s'.pending = s.pending ∧ s'.cref = s.cref ∧ s'.snap = s.snap ∧ s'.content = s.content ∧ s'.hist = s.hist :=
+  ⟨rfl, rfl, rfl, rfl, rfl, rfl, rfl, rfl, rfl, rfl⟩
+
+/-- the numbers another family took are skipped: the next table number this family is handed is
+at least the old counter plus what the others took, hence different from every number of theirs
+(`[s.nextFile, s.nextFile + df)`) — which is why reader-cache entries (keyed by file name alone,
+`tie_cacheKeys`) of different families never alias -/
+theorem alloc_after_other_family_skips_its_numbers (s : St) (df dv j : Nat) (c : Content) (lvl : Nat) :
+    ((jAlloc (envBump s df dv) j c lvl).job j).out.map (·.no) = some (s.nextFile + df) := by
+  simp [jAlloc, allocFile, envBump, St.setJob]
+
+/-- Over all schedules INCLUDING arbitrary activity of the store's other families between any two
+steps: reads through a held snapshot are stable (instance of `snapshot_stable`, whose step
+alphabet contains `env`), stated for a schedule that explicitly interleaves foreign commits. -/
+theorem snapshot_stable_with_other_families {cfg : Cfg} {v0 f0 : Nat} {s s' : St} {acts : List Act}
+    (hr : cfg.recheck = true) (hcl : cfg.cloneLocked = true) (hal : cfg.allocLocked = true)
+    (hfe : cfg.findErrReleases = false) (hpf : cfg.pendFirst = true) (hcc : cfg.closeCAS = true)
+    (hga : cfg.getReaderAtomic = true) (hlf : cfg.listFirst = true)
+    (h : Reachable cfg v0 f0 s) (df dv : Nat) (hrun : run cfg s (.env df dv :: acts) = some s')
+    (i : Nat) (hi : i < s.nSnap) (ho' : (s'.snap i).st = .opened) (k : Nat) :
+    readKey s' i k = readKey s i k :=
+  (snapshot_stable hr hcl hal hfe hpf hcc hga hlf h hrun i hi ho' k).1
+
+/-! ### three committers (flush ‖ compaction ‖ rollup) -/
+
+/-- ANY committer whose swap is done is visible to a reader that starts now: every table its edit
+log added that no installed edit log deletes is listed by the reader's version. -/
+theorem committer_visible {cfg : Cfg} {v0 f0 : Nat} {s s' : St} (hr : cfg.recheck = true)
+    (hcl : cfg.cloneLocked = true) (hal : cfg.allocLocked = true) (hfe : cfg.findErrReleases = false) (hpf : cfg.pendFirst = true)
+    (hcc : cfg.closeCAS = true) (hga : cfg.getReaderAtomic = true) (hlf : cfg.listFirst = true)
+    (h : Reachable cfg v0 f0 s) (hst : step cfg s .acquire = some s')
+    (j : Nat) (hj : j < s.nJob) (hpj : postSwap (s.job j).pc = true) :
+    ∀ m ∈ (s.job j).edit.adds, (∀ e' ∈ s.hist, (m.level, m.no) ∉ e'.dels) →
+      m ∈ (s'.ver (s'.snap s.nSnap).ver).files := by
+  intro m hm hnd
+  obtain ⟨later, earlier, hh, hv⟩ := completed_commits_visible hr hcl hal hfe hpf hcc hga hlf h hst _
+    (commit_recorded hr hcl hal hfe hpf hcc hga hlf h j hj hpj)
+  exact hv m hm (fun e' he' => hnd e' (by rw [hh]; simp [he']))
+
+/-- three committers — a flush `a`, a level-0 compaction `b`, a rollup-done commit `c` — whose swaps
+are all done, in whatever order the version-set mutex serialised them and however their other
+steps interleaved: a reader that starts now sees the flush's table unless an installed compaction
+consumed it, sees the compaction's output likewise, and the reference count of every version
+equals the number of snapshots open on it (the three commits' own snapshots included). -/
+theorem three_committers_all_visible {cfg : Cfg} {v0 f0 : Nat} {s s' : St} (hr : cfg.recheck = true)
+    (hcl : cfg.cloneLocked = true) (hal : cfg.allocLocked = true) (hfe : cfg.findErrReleases = false) (hpf : cfg.pendFirst = true)
+    (hcc : cfg.closeCAS = true) (hga : cfg.getReaderAtomic = true) (hlf : cfg.listFirst = true)
+    (h : Reachable cfg v0 f0 s) (hst : step cfg s .acquire = some s')
+    (a b c : Nat) (ha : a < s.nJob) (hb : b < s.nJob) (hc : c < s.nJob)
+    (hpa : postSwap (s.job a).pc = true) (hpb : postSwap (s.job b).pc = true) (hpc : postSwap (s.job c).pc = true) :
+    (∀ x ∈ [a, b, c], ∀ m ∈ (s.job x).edit.adds, (∀ e' ∈ s.hist, (m.level, m.no) ∉ e'.dels) →
+      m ∈ (s'.ver (s'.snap s.nSnap).ver).files) ∧
+    (∀ x ∈ [a, b, c], (s.job x).edit ∈ s.hist) ∧
+    (∀ v, s.ref v = (cntOpen s.snap v s.nSnap : Int)) := by
+  refine ⟨?_, ?_, (safe_reachable hr hcl hal hfe hpf hcc hga hlf h).ref_count⟩
+  · intro x hx
+    simp only [List.mem_cons, List.mem_nil_iff, or_false] at hx
+    rcases hx with rfl | rfl | rfl
+    · exact committer_visible hr hcl hal hfe hpf hcc hga hlf h hst _ ha hpa
+    · exact committer_visible hr hcl hal hfe hpf hcc hga hlf h hst _ hb hpb
+    · exact committer_visible hr hcl hal hfe hpf hcc hga hlf h hst _ hc hpc
+  · intro x hx
+    simp only [List.mem_cons, List.mem_nil_iff, or_false] at hx
+    rcases hx with rfl | rfl | rfl
+    · exact commit_recorded hr hcl hal hfe hpf hcc hga hlf h _ ha hpa
+    · exact commit_recorded hr hcl hal hfe hpf hcc hga hlf h _ hb hpb
+    · exact commit_recorded hr hcl hal hfe hpf hcc hga hlf h _ hc hpc
+
 /-! ### unfinished writers, double Close, concurrent GetReader -/
 
 /-- Over all schedules (pending mark BEFORE the table file is created): the table of a writer that
@@ -502,10 +625,10 @@ has created its file and not yet finished its commit is in the directory and is 
 deleteObsoleteFiles, whose listing precedes its pending scan, never unlinks it. -/
 theorem unfinished_writer_table_never_deleted {cfg : Cfg} {v0 f0 : Nat} {s : St} (hr : cfg.recheck = true)
     (hcl : cfg.cloneLocked = true) (hal : cfg.allocLocked = true) (hfe : cfg.findErrReleases = false)
-    (hpf : cfg.pendFirst = true) (hcc : cfg.closeCAS = true) (hga : cfg.getReaderAtomic = true)
+    (hpf : cfg.pendFirst = true) (hcc : cfg.closeCAS = true) (hga : cfg.getReaderAtomic = true) (hlf : cfg.listFirst = true)
     (h : Reachable cfg v0 f0 s) (j : Nat) (hj : j < s.nJob) (hp : outOnDisk (s.job j).pc = true) :
     ∀ f ∈ outNo (s.job j), f ∈ s.disk ∧ f ∈ s.pending :=
-  (no_needed_file_deleted hr hcl hal hfe hpf hcc hga h).2.1 j hj hp
+  (no_needed_file_deleted hr hcl hal hfe hpf hcc hga hlf h).2.1 j hj hp
 
 /-- `Close` is idempotent with the CAS guard: once a Close() of a snapshot has started no further
 release of its version can happen — a second (overlapping or later) Close() is no step at all —
@@ -552,10 +675,10 @@ theorem cleanup_enabled_iff (cfg : Cfg) (s : St) (fs : List Nat) :
 stays mapped, and the state stays `Safe` -/
 theorem cleanup_any_choice_keeps_held_readers {cfg : Cfg} {v0 f0 : Nat} {s s' : St} (hr : cfg.recheck = true)
     (hcl : cfg.cloneLocked = true) (hal : cfg.allocLocked = true) (hfe : cfg.findErrReleases = false) (hpf : cfg.pendFirst = true)
-    (hcc : cfg.closeCAS = true) (hga : cfg.getReaderAtomic = true) (h : Reachable cfg v0 f0 s) (fs : List Nat)
+    (hcc : cfg.closeCAS = true) (hga : cfg.getReaderAtomic = true) (hlf : cfg.listFirst = true) (h : Reachable cfg v0 f0 s) (fs : List Nat)
     (hst : step cfg s (.cleanup fs) = some s') :
     Safe s' ∧ ∀ i, i < s.nSnap → (s.snap i).st = .opened → ∀ f ∈ (s.snap i).held, s'.cref f ≠ none := by
-  have hs' := safe_step hr hcl hal hfe hpf hcc hga (safe_reachable hr hcl hal hfe hpf hcc hga h) hst
+  have hs' := safe_step hr hcl hal hfe hpf hcc hga hlf (safe_reachable hr hcl hal hfe hpf hcc hga hlf h) hst
   refine ⟨hs', ?_⟩
   intro i hi ho f hf
   have hsnap : s'.snap = s.snap ∧ s'.nSnap = s.nSnap := by
@@ -564,6 +687,54 @@ theorem cleanup_any_choice_keeps_held_readers {cfg : Cfg} {v0 f0 : Nat} {s s' : 
     · cases hst; exact ⟨rfl, rfl⟩
     · cases hst
   exact hs'.held_mapped i (by rw [hsnap.2]; exact hi) (by rw [hsnap.1]; exact ho) f (by rw [hsnap.1]; exact hf)
+
+/-! ### the concrete reader cache (LRU list, `last` timestamps, TTL) refines the abstract one -/
+
+theorem tie_lruWalk : Generated.C02.lruWalkShape = Code.lruWalkShape := rfl
+
+/-- The deterministic `Cleanup` of kv/table/cache.go — walk from the LRU tail, close while the entry
+is unreferenced AND expired (`now - last > ttl`), stop at the first that is not — is, for EVERY
+ttl, clock value and LRU order, one of the choices of the model's nondeterministic `cleanup` step:
+the step is enabled for exactly the set the walk closed and yields the walked list's abstraction. -/
+theorem ttl_lru_cleanup_refines_cleanup (cfg : Cfg) (s : St) (l : Lru) (hl : LruOk l) (hc : s.cref = absLru l)
+    (ttl : Int) (now : Nat) :
+    ∃ s', step cfg s (.cleanup (lruClosed ttl now l)) = some s' ∧ s'.cref = absLru (lruWalk ttl now l) ∧
+      LruOk (lruWalk ttl now l) := by
+  have hidle := lruClosed_idle (ttl := ttl) (now := now) hl
+  refine ⟨cleanFiles s (lruClosed ttl now l), ?_, ?_, lruOk_walk hl⟩
+  · simp [step, hc, hidle]
+  · simp [cleanFiles, hc, absLru_walk hl]
+
+/-- hence, over all schedules and whatever the TTL, the clock and the LRU order are: the real
+`Cleanup` never closes (unmaps) a reader that an open snapshot retains -/
+theorem ttl_lru_cleanup_keeps_held_readers {cfg : Cfg} {v0 f0 : Nat} {s : St} (hr : cfg.recheck = true)
+    (hcl : cfg.cloneLocked = true) (hal : cfg.allocLocked = true) (hfe : cfg.findErrReleases = false) (hpf : cfg.pendFirst = true)
+    (hcc : cfg.closeCAS = true) (hga : cfg.getReaderAtomic = true) (hlf : cfg.listFirst = true) (h : Reachable cfg v0 f0 s)
+    (l : Lru) (hl : LruOk l) (hc : s.cref = absLru l) (ttl : Int) (now : Nat) :
+    ∀ i, i < s.nSnap → (s.snap i).st = .opened → ∀ f ∈ (s.snap i).held,
+      absLru (lruWalk ttl now l) f ≠ none ∧ f ∉ lruClosed ttl now l := by
+  obtain ⟨s', hst, hcref, _⟩ := ttl_lru_cleanup_refines_cleanup cfg s l hl hc ttl now
+  have hk := (cleanup_any_choice_keeps_held_readers hr hcl hal hfe hpf hcc hga hlf h _ hst).2
+  intro i hi ho f hf
+  have h1 := hk i hi ho f hf
+  rw [hcref] at h1
+  refine ⟨h1, ?_⟩
+  intro hmem
+  rw [absLru_walk hl, cleanup_apply] at h1
+  simp [hmem] at h1
+
+/-- `Evict` and a `GetReader` hit / miss of the list model are the abstract `evict` / `getReader` -/
+theorem lru_evict_getReader_refine (l : Lru) (disk : List Nat) (now f : Nat) :
+    absLru (lruEvict l f) = evict (absLru l) f ∧
+    (lruGet l disk now f).map absLru = getReader (absLru l) disk f := by
+  refine ⟨absLru_evict l f, ?_⟩
+  cases h : absLru l f with
+  | none => exact absLru_get_miss h
+  | some r => exact absLru_get_hit h
+
+/-- non-vacuity: a three-entry LRU list whose tail is idle and expired, middle is retained -/
+example : lruClosed 10 100 [⟨4, 0, 95⟩, ⟨3, 1, 10⟩, ⟨2, 0, 20⟩] = [2] ∧
+    (lruWalk 10 100 [⟨4, 0, 95⟩, ⟨3, 1, 10⟩, ⟨2, 0, 20⟩]).map (·.file) = [4, 3] := by decide
 
 /-! ### non-vacuity: a non-trivial reachable state of the safe variant -/
 
@@ -785,6 +956,46 @@ theorem unfinished_writer_table_deleted :
     simp only [Bool.and_eq_true, decide_eq_true_eq, List.contains_eq_mem, Bool.not_eq_true', decide_eq_false_iff_not] at h
     obtain ⟨⟨a, b⟩, c⟩ := h
     exact ⟨s, reachable_run Reachable.init hr, a, by simpa using b, by simpa using c⟩
+
+/-! #### directory listed AFTER the live set was collected (variant `listFirst = false`) -/
+
+def lateListCfg : Cfg := { recheck := true, listFirst := false, threshold := 2 }
+
+/-- a deleteObsoleteFiles (job 0) has collected pending outputs, active versions' files and rollup
+files; a flush (job 1) allocates table 2 (pending) and creates its file; the cleanup now lists the
+directory, finds table 2 listed and not live, evicts and unlinks it; the flush commits anyway -/
+def lateListActs : List Act :=
+  [.spawn .delObs [], .jstep 0, .jstep 0, .jstep 0, .jstep 0, .spawn .flush [(1, [10])], .jstep 1, .jstep 1] ++
+  List.replicate 4 (.jstep 0) ++ List.replicate 10 (.jstep 1)
+
+theorem late_listing_deletes_unfinished_writer_table :
+    ∃ s, Reachable lateListCfg 0 2 s ∧ (s.job 1).pc = .done ∧ 2 ∈ (s.ver s.cur).nos ∧ 2 ∉ s.disk := by
+  have h : (match run lateListCfg (St.init 0 2) lateListActs with
+      | some s => decide ((s.job 1).pc = .done) && (s.ver s.cur).nos.contains 2 && !(s.disk.contains 2)
+      | none => false) = true := by decide
+  cases hr : run lateListCfg (St.init 0 2) lateListActs with
+  | none => rw [hr] at h; cases h
+  | some s =>
+    rw [hr] at h
+    simp only [Bool.and_eq_true, decide_eq_true_eq, List.contains_eq_mem, Bool.not_eq_true', decide_eq_false_iff_not] at h
+    obtain ⟨⟨a, b⟩, c⟩ := h
+    exact ⟨s, reachable_run Reachable.init hr, a, by simpa using b, by simpa using c⟩
+
+/-- … and at the moment of the unlink the table is the created output of an unfinished writer -/
+theorem late_listing_unlinks_pending_output :
+    ∃ s, Reachable lateListCfg 0 2 s ∧ (s.job 0).pc = .doEvicted ∧ (s.job 0).todoDel = [2] ∧
+      (s.job 1).pc = .ready ∧ 2 ∈ s.pending ∧ 2 ∈ s.disk := by
+  have h : (match run lateListCfg (St.init 0 2) (lateListActs.take 10) with
+      | some s => decide ((s.job 0).pc = .doEvicted) && decide ((s.job 0).todoDel = [2]) && decide ((s.job 1).pc = .ready)
+          && s.pending.contains 2 && s.disk.contains 2
+      | none => false) = true := by decide
+  cases hr : run lateListCfg (St.init 0 2) (lateListActs.take 10) with
+  | none => rw [hr] at h; cases h
+  | some s =>
+    rw [hr] at h
+    simp only [Bool.and_eq_true, decide_eq_true_eq, List.contains_eq_mem] at h
+    obtain ⟨⟨⟨⟨a, b⟩, c⟩, d⟩, e⟩ := h
+    exact ⟨s, reachable_run Reachable.init hr, a, b, c, by simpa using d, by simpa using e⟩
 
 /-! #### Close guarded by load … store instead of a CAS (variant `closeCAS = false`) -/
 
